@@ -313,6 +313,10 @@ func Drive(p Prop, tier string, opt Options) int {
 				hung = true
 			}
 			stderrTail = tail(errFile, 6000)
+			if hung {
+				// the watchdog's goroutine dump: the wedge identity is read from it
+				stderrTail = tail(errFile, 400000)
+			}
 		}
 		return
 	}
@@ -395,7 +399,7 @@ func Drive(p Prop, tier string, opt Options) int {
 				Identity: p.ID() + "/process-death/" + crashSite(tailS),
 				Detail:   fmt.Sprintf("worker process died while running case %d (reproduced alone)", i),
 				Case:     map[string]any{"seed": seed, "tier": tier, "index": i},
-				Witness:  tailS,
+				Witness:  capStr(tailS, 60000),
 			})
 		} else if died && hung {
 			a.inconclusive = append(a.inconclusive, fmt.Sprintf("case %d: crashed in batch, hung alone", i))
@@ -413,9 +417,9 @@ func Drive(p Prop, tier string, opt Options) int {
 			a.violations = append(a.violations, Violation{
 				Property: p.ID(), Class: "wedge",
 				Identity: p.ID() + "/wedge/" + wedgeSite(tailS),
-				Detail:   fmt.Sprintf("case %d exceeded its watchdog twice (second time alone in a fresh process)", i),
+				Detail:   fmt.Sprintf("case %d exceeded its watchdog twice (second time alone in a fresh process); stuck in %s", i, wedgeSite(tailS)),
 				Case:     map[string]any{"seed": seed, "tier": tier, "index": i},
-				Witness:  tailS,
+				Witness:  capStr(tailS, 60000),
 			})
 		} else if died {
 			a.inconclusive = append(a.inconclusive, fmt.Sprintf("case %d: watchdog/crash on re-run alone", i))
@@ -476,7 +480,28 @@ func crashSite(t string) string {
 	return msg + "@" + site
 }
 
+// wedgeSite names where the case was stuck: the innermost function of the
+// repository on the stack of the goroutine that runs the case (from the
+// watchdog's goroutine dump), or "watchdog" when the dump does not tell.
 func wedgeSite(t string) string {
+	blocks := strings.Split(t, "\n\n")
+	for _, b := range blocks {
+		if !strings.Contains(b, "RunCase") && !strings.Contains(b, "vp.Work") {
+			continue
+		}
+		for _, line := range strings.Split(b, "\n") {
+			if i := strings.Index(line, "github.com/conduitio/conduit/pkg/"); i == 0 {
+				fn := strings.TrimPrefix(line, "github.com/conduitio/conduit/")
+				if j := strings.Index(fn, "("); j > 0 {
+					// keep "pkg/x/y.(*T).Method", drop the argument list
+					if k := strings.LastIndex(fn, "("); k > 0 && !strings.HasPrefix(fn[k:], "(*") {
+						fn = fn[:k]
+					}
+				}
+				return "watchdog@" + fn
+			}
+		}
+	}
 	return "watchdog"
 }
 
@@ -737,4 +762,11 @@ func Main(race bool) {
 	default:
 		os.Exit(2)
 	}
+}
+
+func capStr(s string, n int) string {
+	if len(s) > n {
+		return s[:n]
+	}
+	return s
 }
